@@ -99,11 +99,13 @@ ValuesOf(sc) ==
 VARIABLES sc, v, mut, doc, pos, part, cnt, verdict
 vars == <<sc, v, mut, doc, pos, part, cnt, verdict>>
 NoMut == Mut("none", 0, "root")
+\* the documents that get mutated: one valid value per instantiated class (mutations and facets do not interact)
+MutBase(s0, v0) == Valid(s0, v0) /\ (v0.none \/ (v0.len = MaxC /\ (s0.kind \in ListKinds => v0.cnt = MaxC)))
 
 Init ==
     /\ sc \in {s \in Scenarios : s.pa <= s.L}
     /\ v \in ValuesOf(sc)
-    /\ mut \in {NoMut} \cup (IF Valid(sc, v) THEN Mutations(sc, v) ELSE {})
+    /\ mut \in {NoMut} \cup (IF MutBase(sc, v) THEN Mutations(sc, v) ELSE {})
     /\ doc = IF mut = NoMut THEN BaseDoc(sc, v) ELSE ApplyMutation(BaseDoc(sc, v), mut)
     /\ pos = 1 /\ part = 1 /\ cnt = 0
     /\ verdict = "running"
@@ -112,24 +114,31 @@ CM == ContentModel(sc, v.inst)
 Running == verdict = "running"
 \* the root element must be declared (name of the target namespace)
 RejectRoot == Running /\ ~doc.rootok /\ verdict' = "rejected" /\ UNCHANGED <<sc, v, mut, doc, pos, part, cnt>>
-\* the next child matches the current particle and may still occur
-Consume ==
-    /\ Running /\ doc.rootok /\ pos <= Len(doc.kids) /\ part <= Len(CM)
+\* the next child matches the current particle, may still occur, and its own content is valid
+CanConsume ==
+    /\ pos <= Len(doc.kids) /\ part <= Len(CM)
     /\ doc.kids[pos].name = CM[part].name /\ cnt < CM[part].hi
     /\ IF doc.kids[pos].name = "x" THEN XContentOk(sc, v, doc.kids[pos].kids) ELSE doc.kids[pos].kids = <<>>
+\* the current particle is satisfied and the next child is not another occurrence of it
+CanAdvance ==
+    /\ part <= Len(CM) /\ cnt >= CM[part].lo
+    /\ ~(pos <= Len(doc.kids) /\ doc.kids[pos].name = CM[part].name /\ cnt < CM[part].hi)
+CanAccept == pos > Len(doc.kids) /\ part > Len(CM)
+Consume ==
+    /\ Running /\ doc.rootok /\ CanConsume
     /\ pos' = pos + 1 /\ cnt' = cnt + 1
     /\ UNCHANGED <<sc, v, mut, doc, part, verdict>>
-\* the current particle is satisfied and the next child is not another occurrence of it
 Advance ==
-    /\ Running /\ doc.rootok /\ part <= Len(CM) /\ cnt >= CM[part].lo
-    /\ ~(pos <= Len(doc.kids) /\ doc.kids[pos].name = CM[part].name /\ cnt < CM[part].hi)
+    /\ Running /\ doc.rootok /\ ~CanConsume /\ CanAdvance
     /\ part' = part + 1 /\ cnt' = 0
     /\ UNCHANGED <<sc, v, mut, doc, pos, verdict>>
 Accept ==
-    /\ Running /\ doc.rootok /\ pos > Len(doc.kids) /\ part > Len(CM)
+    /\ Running /\ doc.rootok /\ CanAccept
     /\ verdict' = "accepted" /\ UNCHANGED <<sc, v, mut, doc, pos, part, cnt>>
-Stuck == Running /\ doc.rootok /\ ~ENABLED Consume /\ ~ENABLED Advance /\ ~ENABLED Accept
-Reject == Stuck /\ verdict' = "rejected" /\ UNCHANGED <<sc, v, mut, doc, pos, part, cnt>>
+\* no rule applies: the document is not in the language of the content model
+Reject ==
+    /\ Running /\ doc.rootok /\ ~CanConsume /\ ~CanAdvance /\ ~CanAccept
+    /\ verdict' = "rejected" /\ UNCHANGED <<sc, v, mut, doc, pos, part, cnt>>
 Next == RejectRoot \/ Consume \/ Advance \/ Accept \/ Reject
 Spec == Init /\ [][Next]_vars
 
@@ -141,8 +150,13 @@ Design_ValidAccepted == Done /\ mut = NoMut /\ Valid(sc, v) => verdict = "accept
 \* C14 at design level
 Design_ViolationRejected == Done /\ mut = NoMut /\ MustReject(sc, v) => verdict = "rejected"
 Design_MutationRejected  == Done /\ mut # NoMut => verdict = "rejected"
-\* the automaton is deterministic and always terminates with a verdict (no deadlock before Done)
-Design_Progress == ~Done => ENABLED Next
+\* the automaton is deterministic (at most one rule applies) and never stops without a verdict
+Design_Progress == Running /\ doc.rootok =>
+    Cardinality({r \in {"consume", "advance", "accept", "reject"} :
+        \/ r = "consume" /\ CanConsume
+        \/ r = "advance" /\ ~CanConsume /\ CanAdvance
+        \/ r = "accept" /\ CanAccept
+        \/ r = "reject" /\ ~CanConsume /\ ~CanAdvance /\ ~CanAccept}) = 1
 \* expected to be VIOLATED (own cfg): the stated exclusion of C14 is real in this design
 Design_ExclusionIsReal == ~(Done /\ mut = NoMut /\ OnlyExcluded(sc, v) /\ verdict = "accepted")
 =============================================================================
